@@ -3,6 +3,7 @@
 package props
 
 import (
+	"bufio"
 	"bytes"
 	"encoding/base64"
 	"encoding/json"
@@ -95,7 +96,7 @@ func c17Gen(rng *core.RNG, idx int) c17Profile {
 			case 2:
 				nrec = 7 + rng.Intn(34)
 			}
-			content = []string{"ascii", "bmp", "astral", "empty-en", "latin1"}[rng.Intn(5)]
+			content = []string{"ascii", "bmp", "astral", "empty-en", "latin1", "bom"}[rng.Intn(6)]
 			enpos = []string{"first", "middle", "last", "absent", "twice"}[rng.Intn(5)]
 			if nrec == 1 && (enpos == "middle" || enpos == "twice") {
 				enpos = "first"
@@ -289,6 +290,29 @@ func c17Check(profile []byte, accept []string, hasDesc bool, via string) (kind, 
 		}
 		data = got
 	}
+	if via == "bufio@4000" {
+		// the profile starts at stream offsets 3990..4015 behind a default bufio.Reader, so that
+		// the reader's 4096-byte refill falls inside the header
+		for off := 3990; off <= 4015; off += 5 {
+			br := bufio.NewReader(bytes.NewReader(append(make([]byte, off), data...)))
+			_, _ = br.Discard(off)
+			p, err, pan := readProfile(br)
+			if pan != nil || err != nil || p == nil {
+				return "read-failed", fmt.Sprintf("ReadProfile failed on a well-formed profile behind a bufio.Reader at stream offset %d: %v %v", off, err, pan)
+			}
+			if hasDesc {
+				d, derr, dpan := description(p)
+				okd := false
+				for _, a := range accept {
+					okd = okd || a == d
+				}
+				if dpan != nil || derr != nil || !okd {
+					return "wrong-description", fmt.Sprintf("behind a bufio.Reader at stream offset %d: Description() = %q (err %v), acceptable: %q", off, d, derr, accept)
+				}
+			}
+		}
+		return "", "ok"
+	}
 	rd := bytes.NewReader(data)
 	if via == "offset" {
 		// the profile sits after other bytes in the same reader (e.g. after a chunk header)
@@ -333,8 +357,11 @@ func runC17(r *core.Run) {
 		var ring []c17Kept
 		for i := 0; i < n/shards; i++ {
 			p := c17Gen(rg, sh*(n/shards)+i)
-			for _, via := range []string{"direct", "jpeg", "offset"} {
+			for _, via := range []string{"direct", "jpeg", "offset", "bufio@4000"} {
 				if via != "direct" && i%8 != 0 {
+					continue
+				}
+				if via == "bufio@4000" && i%32 != 0 {
 					continue
 				}
 				kind, msg := c17Check(p.bytes, p.accept, p.hasDesc, via)
